@@ -417,6 +417,15 @@ class SymEval:
         return self.subscript(base, idx)
 
     def subscript(self, base, idx):
+        # element / slice of a constant sequence (a class-level layout table, ...)
+        if base[0] == "c" and isinstance(base[1], (tuple, list)):
+            try:
+                if idx[0] != "slice" and is_const(idx) and isinstance(idx[1], int) and not isinstance(idx[1], bool):
+                    return ("c", base[1][idx[1]])
+                if idx[0] == "slice" and all(x is None or (is_const(x) and isinstance(x[1], int) and not isinstance(x[1], bool)) for x in idx[1:4]):
+                    return ("c", base[1][(idx[1][1] if idx[1] else None):(idx[2][1] if idx[2] else None):(idx[3][1] if idx[3] else None)])
+            except IndexError:
+                pass
         if idx[0] != "slice":
             if base[0] in ("list", "tuple") and is_const(idx) and isinstance(idx[1], int) and not isinstance(idx[1], bool):
                 if -len(base[1]) <= idx[1] < len(base[1]):
@@ -427,8 +436,8 @@ class SymEval:
                         return v
         else:
             lo, hi, st = idx[1], idx[2], idx[3]
-            if base[0] == "list" and st is None and (lo is None or is_const(lo)) and (hi is None or is_const(hi)):
-                return ("list", base[1][(lo[1] if lo else None):(hi[1] if hi else None)])
+            if base[0] in ("list", "tuple") and st is None and (lo is None or is_const(lo)) and (hi is None or is_const(hi)):
+                return (base[0], base[1][(lo[1] if lo else None):(hi[1] if hi else None)])
         # X[lo:hi][k]  ==  X[lo + k]   (constant, non-negative lo and k; k inside the slice when hi is constant)
         if idx[0] != "slice" and is_const(idx) and isinstance(idx[1], int) and not isinstance(idx[1], bool) and idx[1] >= 0 and \
                 base[0] == "sub" and base[2][0] == "slice" and base[2][3] is None:
@@ -548,6 +557,22 @@ class SymEval:
         saved = dict(self.env)
         gens = []
         # a comprehension over a constant range with no filter is a list display
+        if len(n.generators) == 1 and not n.generators[0].ifs and isinstance(n, (ast.ListComp, ast.GeneratorExp)) and \
+                not isinstance(n.generators[0].target, ast.Name):
+            # over a constant table with a tuple target: one element per row
+            it0 = self.expr(n.generators[0].iter)
+            rows = None
+            if it0[0] == "c" and isinstance(it0[1], (tuple, list)) and 0 < len(it0[1]) <= 32:
+                rows = [("c", row) for row in it0[1]]
+            elif it0[0] in ("tuple", "list") and 0 < len(it0[1]) <= 32 and all(r_[0] in ("tuple", "list") and all(is_const(x) for x in r_[1]) for r_ in it0[1]):
+                rows = list(it0[1])
+            if rows is not None:
+                items = []
+                for row in rows:
+                    self._bind_target(n.generators[0].target, row)
+                    items.append(self.expr(n.elt))
+                self.env = saved
+                return ("list", tuple(items))
         if len(n.generators) == 1 and not n.generators[0].ifs and isinstance(n, ast.ListComp) and isinstance(n.generators[0].target, ast.Name):
             it = self.expr(n.generators[0].iter)
             if it[0] == "call" and it[1] == ("glob", "range") and all(is_const(a) and isinstance(a[1], int) for a in it[2]) and not it[3]:
@@ -656,6 +681,11 @@ class SymEval:
             if a[0] in ("list", "tuple"):
                 self.effects.append(Eff("call", None, ("call", f, args, kwargs), n))
                 return ("c", len(a[1]))
+        if f == ("glob", "sum") and 1 <= len(args) <= 2 and not kwargs and args[0][0] in ("list", "tuple") and len(args[0][1]) <= 64:
+            acc = args[1] if len(args) == 2 else ("c", 0)
+            for it_ in args[0][1]:
+                acc = mk_bin("+", acc, it_)
+            return acc
         if f == ("glob", "int") and len(args) == 1 and is_const(args[0]) and isinstance(args[0][1], (int, float)):
             return ("c", int(args[0][1]))
         if f == ("glob", "list") and len(args) == 1 and (args[0][0] in ("list", "cat", "pad") or (args[0][0] == "sub" and args[0][2][0] == "slice")):
@@ -679,6 +709,17 @@ class SymEval:
                 if k == args[0]:
                     return v
             return args[1] if len(args) == 2 else ("c", None)
+        # getattr(obj, "name") / setattr(obj, "name", v) with a constant name: plain attribute access
+        if f == ("glob", "getattr") and len(args) == 2 and not kwargs and is_const(args[1]) and isinstance(args[1][1], str):
+            return self._heap_read(("attr", args[0], args[1][1]))
+        if f == ("glob", "setattr") and len(args) == 3 and not kwargs and is_const(args[1]) and isinstance(args[1][1], str):
+            tgt = ("attr", args[0], args[1][1])
+            self.effects.append(Eff("store", tgt, args[2], n))
+            if self.use_heap:
+                for hk in [hk for hk in self.heap if hk != tgt and contains(hk, tgt)]:
+                    self.heap.pop(hk, None)
+                self.heap[tgt] = args[2]
+            return ("c", None)
         s = ("call", f, args, kwargs)
         # entry.update(k=v, ...) / entry.update({...}) on a stored dict: the same as the individual subscript stores, in order
         if f[0] == "attr" and f[2] == "update" and is_heap_path(f[1]) and f[1][0] in ("sub", "attr") and f[1] != SELF and \
@@ -891,6 +932,16 @@ class SymEval:
         elif isinstance(t, (ast.Tuple, ast.List)) and len(t.elts) == 2 and v[0] == "call" and v[1] == ("glob", "divmod") and len(v[2]) == 2:
             self._bind_target(t.elts[0], mk_bin("//", v[2][0], v[2][1]))
             self._bind_target(t.elts[1], mk_bin("%", v[2][0], v[2][1]))
+        elif isinstance(t, (ast.Tuple, ast.List)) and v[0] == "c" and isinstance(v[1], (tuple, list)) and \
+                sum(1 for e in t.elts if isinstance(e, ast.Starred)) == 1 and len(v[1]) >= len(t.elts) - 1:
+            k = [i for i, e in enumerate(t.elts) if isinstance(e, ast.Starred)][0]
+            after = len(t.elts) - k - 1
+            seq = list(v[1])
+            for i, e in enumerate(t.elts[:k]):
+                self._bind_target(e, ("c", seq[i]))
+            self._bind_target(t.elts[k].value, ("c", tuple(seq[k:len(seq) - after])))
+            for i, e in enumerate(t.elts[k + 1:]):
+                self._bind_target(e, ("c", seq[len(seq) - after + i]))
         elif isinstance(t, (ast.Tuple, ast.List)):
             for i, e in enumerate(t.elts):
                 if v[0] in ("tuple", "list") and len(v[1]) == len(t.elts):
